@@ -212,6 +212,7 @@ type FakeRW struct {
 	BrSize     int
 	Buffered   []byte // bytes already in the hijacked bufio.Reader
 	BwSize     int
+	Detached   bool // the bufio.Reader handed out reads from a source of its own that ends after Buffered
 }
 
 func (w *FakeRW) Header() http.Header { return w.H }
@@ -240,7 +241,10 @@ func (w *FakeRW) Hijack() (net.Conn, *bufio.ReadWriter, error) {
 		bws = 4096
 	}
 	var br *bufio.Reader
-	if len(w.Buffered) > 0 {
+	if w.Detached {
+		br = bufio.NewReaderSize(bytes.NewReader(w.Buffered), brs)
+		br.Peek(len(w.Buffered))
+	} else if len(w.Buffered) > 0 {
 		// a reader whose buffer already holds w.Buffered and whose source is the conn
 		br = bufio.NewReaderSize(io.MultiReader(bytes.NewReader(w.Buffered), w.Conn), brs)
 		br.Peek(len(w.Buffered))
